@@ -14,13 +14,17 @@ from .lib import libcall
 
 
 @st.composite
-def sup_case(draw, nmax=10, kinds=("sup",), nq=(0, 0), nu=(0, 0), modes=("pre", "pre", "feat"), nmin=2, metrics=None, kmax=4, wmode=None):
+def sup_case(draw, nmax=10, kinds=("sup",), nq=(0, 0), nu=(0, 0), modes=("pre", "pre", "feat"), nmin=2, metrics=None, kmax=4, wmode=None, big_labels=True):
     model = draw(st.sampled_from(list(kinds)))
     mode = draw(st.sampled_from(list(modes)))
     nt = draw(st.one_of(st.integers(nmin, max(nmin, min(nmax, 6))), st.integers(nmin, nmax)))
     n_u = draw(st.integers(nu[0], nu[1])) if model == "semi" else 0
     n_q = draw(st.integers(nq[0], nq[1]))
     Y = draw(gen.labels(nt, 2, kmax))
+    if big_labels and draw(st.integers(0, 4)) == 0:
+        # class identifiers are arbitrary non-negative integers: also large ones (outside CPython's small-int cache)
+        ids = draw(st.lists(st.integers(257, 100000), min_size=kmax, max_size=kmax, unique=True))
+        Y = [ids[y] for y in Y]
     m = nt + n_u + n_q
     case = {"model": model, "mode": mode, "nt": nt, "nu": n_u, "nq": n_q, "Y": Y}
     if mode == "pre":
@@ -50,6 +54,11 @@ def sup_case(draw, nmax=10, kinds=("sup",), nq=(0, 0), nu=(0, 0), modes=("pre", 
         case["X"] = X
         case["metric"] = name
         case["pkind"] = kind
+        if draw(st.integers(0, 3)) == 0:
+            # identifiers given by the caller although distances come from the features (they must not influence anything);
+            # they may coincide with the positions the semi-supervised model gives to unlabeled samples
+            # (repeated identifiers included: a bootstrap sample)
+            case["I_feat"] = draw(st.lists(st.integers(0, nt + n_u + 3), min_size=nt, max_size=nt))
     return case
 
 
@@ -76,7 +85,7 @@ class Run:
     pass
 
 
-def run(case, predict=True, check_diag=True):
+def run(case, predict=True, check_diag=True, need_symmetric=True):
     """fits (and predicts); returns Run with: model, W (train+unl square, evaluated from outside), DQ[q][t] = d(t, x_q), state, preds
     or a string = discard reason (premise of the property not met by the evaluated matrix)."""
     np = models.np()
@@ -111,9 +120,9 @@ def run(case, predict=True, check_diag=True):
         Xq = np.array(X[ntr:], dtype=float).reshape(nq, len(X[0]))
         r.W = models.eval_matrix(name, X[:ntr])
         r.DQ = [[row[0] for row in models.eval_matrix(name, X[:ntr], [X[ntr + q]])] for q in range(nq)]
-        I_tr = None
+        I_tr = None if case.get("I_feat") is None else np.array(case["I_feat"], dtype=int)
         I_q = None
-    why = models.premise_matrix(r.W, check_diag=check_diag)
+    why = models.premise_matrix(r.W, check_diag=check_diag, need_symmetric=need_symmetric)
     if why is None and nq:
         import math
 
